@@ -36,6 +36,7 @@ fn main() {
         "skipscan" => h::eng_repair::main_skipscan(rest),
         "blockruns" => h::eng_fault::main_blockruns(rest),
         "hugepos" => h::eng_layers::main_hugepos(rest),
+        "everyblock" => h::eng_fault::main_everyblock(rest),
         "capimem" => h::eng_capi::main_mem(rest),
         "mem" => h::eng_mem::main(rest),
         "compfs" => h::eng_compfs::main(rest),
